@@ -26,3 +26,6 @@ PROP = dict(
     assumptions=world.WORLD_ASSUMPTIONS,
     trusted=world.WORLD_TRUSTED,
 )
+
+from ..pin import add_pin
+PROP = add_pin(PROP)
